@@ -185,4 +185,3 @@ func Run(run *vh.Run) {
 		run.Floor("message kinds with at least one field-perturbation comparison", int64(len(kindsSeen)), int64(len(kinds)-2))
 	}
 }
-
